@@ -72,8 +72,24 @@ def compile_many(jobs, jn=NCPU):
 class BuildError(Exception):
     pass
 
+def ensure_shapes_tla():
+    """spec/Shapes.tla is generated from harness/shapes.py; regenerate it if it is stale"""
+    import io, contextlib
+    sys.path.insert(0, HARNESS)
+    import gen_shapes_tla
+    tmp = os.path.join(BUILD, 'Shapes.tla.%d' % os.getpid())
+    os.makedirs(BUILD, exist_ok=True)
+    gen_shapes_tla.main(tmp)
+    dst = os.path.join(SPEC, 'Shapes.tla')
+    new = open(tmp).read()
+    if not os.path.exists(dst) or open(dst).read() != new:
+        with Lock(os.path.join(BUILD, 'shapes.lock')):
+            open(dst, 'w').write(new)
+    os.unlink(tmp)
+
 def build_seq():
     """sequential driver, ASan+UBSan+sanity checks, from /repo's working tree.  Cached by content hash."""
+    ensure_shapes_tla()
     srcs = [os.path.join(HARNESS, 'seq', 'rt.hpp'), os.path.join(HARNESS, 'seq', 'main.cpp'),
             os.path.join(HARNESS, 'shapes.py'), os.path.join(HARNESS, 'gen_seq.py')]
     h = tree_hash(srcs)
@@ -95,7 +111,7 @@ def build_seq():
         bad = [(c, r) for c, r in zip(cpps, res) if r[0] != 0]
         if bad:
             shutil.rmtree(d, ignore_errors=True)
-            raise BuildError('driver does not compile against the current /repo/include:\n' + bad[0][1][-3000:])
+            raise BuildError('driver does not compile against the current /repo/include:\n' + bad[0][1][1][-3000:])
         p = subprocess.run(['g++', '-fsanitize=address,undefined'] + [c + '.o' for c in cpps] + ['-o', 'drv_seq'], cwd=d,
                            stdout=subprocess.PIPE, stderr=subprocess.STDOUT, text=True)
         if p.returncode != 0:
@@ -350,6 +366,7 @@ def build_c09(tier):
 
 def build_conc():
     """concurrent driver: TSan + custom recursive mutex seam + verification hooks"""
+    ensure_shapes_tla()
     srcs = [os.path.join(HARNESS, 'seq', 'rt.hpp'), os.path.join(HARNESS, 'conc', 'cmain_conc.cpp'),
             os.path.join(HARNESS, 'shapes.py'), os.path.join(HARNESS, 'gen_seq.py')]
     h = tree_hash(srcs)
